@@ -170,8 +170,17 @@ int main(void)
 	ASSUME(vf_inv() == 0);			/* Inv on the pre-state */
 #ifdef FAULT
 	/* fault schedule: the device starts failing at the k-th write call of this operation (EIO from then on, k symbolic) */
+#ifdef BADSECTOR
+	/* ... or a bad sector: every device write touching block IN.failk fails (persistently), all other writes succeed */
+	ASSUME(IN.failk < NBLK);
+	vf_bad_lo = (long) IN.failk * BS;
+	vf_bad_hi = vf_bad_lo + BS;
+#define VF_FAULT_HAPPENED (vf_bad_hits > 0)
+#else
 	ASSUME(IN.failk <= 2);
 	vf_fail_write_at = IN.failk;
+#define VF_FAULT_HAPPENED (vf_nwrites > vf_fail_write_at)
+#endif
 #endif
 	vf_decode(Mb);
 	for (i = 0; i < F; i++)
@@ -197,7 +206,7 @@ int main(void)
 		}
 		rc = unix_write_blk64(ch, block, count, out);
 #ifdef FAULT
-		if (vf_nwrites > vf_fail_write_at) {
+		if (VF_FAULT_HAPPENED) {
 			/* the failing device write happened: the caller must learn about it */
 			PROP(rc != 0, "a failed device write is reported to the caller");
 			VF_END();
@@ -221,7 +230,7 @@ int main(void)
 #elif OP == OP_FLUSH
 	rc = unix_flush(ch);
 #ifdef FAULT
-	if (vf_nwrites > vf_fail_write_at) {
+	if (VF_FAULT_HAPPENED) {
 		PROP(rc != 0, "a failed device write is reported to the caller");
 		vf_decode(Pb);
 		for (i = 0; i < F; i++)
